@@ -2,16 +2,19 @@ from props_common import COMMON_ASSUME
 
 PROP = {
     "title": "Every client request gets exactly one response",
-    "engine": "E2",
+    "engine": "E2+E3",
+    "needs_repo_bins": True,
     "level": "exploration",
-    "technique": "runtime monitor: exactly-once history checker over the recorded JSON-RPC message log of the real dispatch layer (SimServer, virtual time, seeded schedule points)",
+    "technique": "runtime monitor: exactly-once history checker over the recorded JSON-RPC message log of the real dispatch layer (SimServer, virtual time, seeded schedule points) and over the framed stdio traffic of the shipped emmylua_ls binary (initialize handshake, requests queued during workspace initialisation, shutdown / exit, process death)",
     "design_ref": "§4 C24",
     "rule": "cases = generated scripts of 8-40 messages mixing 26 request methods with valid / wrong-typed / null / missing-field params, unknown methods, $/cancelRequest (for sent, finished and never-used ids), document notifications, watched-file events, config reloads, saves; every (method, params shape) pair is inserted systematically; "
             "at quiescence every sent request id must have exactly one response; distinct = hash of (lock interleaving, request kinds); non-trivial = >= 2 requests",
     "min_nontrivial": {"quick": 1200, "thorough": 60000},
     "max_secs": {"quick": 600, "thorough": 1500},
-    "require_clauses": ["history-checked", "requests-sent", "error-responses", "cancels-sent"],
-    "assumptions": COMMON_ASSUME + ["the `initialize` handshake and the stdio framing of run_ls are outside the simulator (the dispatch functions are driven directly)", "settled = 120 virtual seconds without server output"],
+    "require_clauses": ["history-checked", "requests-sent", "error-responses", "cancels-sent", "stdio:history-checked", "stdio:requests-sent", "stdio:exit-observed"],
+    "assumptions": COMMON_ASSUME + ["SimServer part: settled = 120 virtual seconds without server output",
+                                      "stdio part: real time; 'never answered' is restated as bounded progress (unanswered 60 s after the burst, then a sentinel request answered, then still unanswered 20 s later => violation; sentinel unanswered => inconclusive); only request kinds that are cheap on a 1-5 file workspace are sent",
+                                      "the stdio client answers every server->client request with null (workspace/configuration with an array of nulls)"],
     "level_text": "Real on_request_handler / ServerContext::task / cancellation map; ~2400 (quick) scripts with ~20k requests, each request id checked for exactly one response at quiescence.",
-    "level_note": "run_ls's own initialize handling (unwrap on undeserialisable params) is not driven by this check.",
+    "level_note": "The stdio part is ~50 (quick) / ~640 (thorough) server processes with 5-25 requests each; duplicates and process death with unanswered requests are definitive, a missing response needs the bounded-progress rule.",
 }
